@@ -43,6 +43,22 @@ MATS = {
     "lossy": dict(eps=_iso(8), mu=_diag(1, 2, 4), se=_diag(1, 2, 3), sm=[1, 1, 0, 1, 2, 0, 0, 0, 1]),
     "mcond": dict(eps=_iso(2), mu=_iso(4), se=Z9, sm=_iso(2)),
 }
+# uniaxial tensors (two equal diagonal entries) for EVERY property and every axis: alone in a scene they decide the tier,
+# so an isotropy test that compares only two of the three diagonal entries allocates too narrow an array
+UNIAX = []
+for _ax, _n in enumerate("xyz"):
+    def _u(a, c, ax=_ax):
+        v = [a, a, a]
+        v[ax] = c
+        return _diag(*v)
+    MATS[f"epsU{_n}"] = dict(eps=_u(2, 4), mu=I9, se=Z9, sm=Z9)
+    MATS[f"muU{_n}"] = dict(eps=_iso(2), mu=_u(1, 2), se=Z9, sm=Z9)
+    MATS[f"muV{_n}"] = dict(eps=_iso(4), mu=_u(2, 4), se=Z9, sm=Z9)
+    MATS[f"seU{_n}"] = dict(eps=_iso(2), mu=I9, se=_u(1, 3), sm=Z9)
+    MATS[f"seZ{_n}"] = dict(eps=_iso(4), mu=I9, se=_u(0, 2), sm=Z9)          # conductive along one axis only
+    MATS[f"smU{_n}"] = dict(eps=_iso(2), mu=I9, se=Z9, sm=_u(2, 1))
+    MATS[f"smZ{_n}"] = dict(eps=_iso(2), mu=_iso(2), se=Z9, sm=_u(0, 3))
+    UNIAX += [f"epsU{_n}", f"muU{_n}", f"muV{_n}", f"seU{_n}", f"seZ{_n}", f"smU{_n}", f"smZ{_n}"]
 # 63 further pairwise distinct materials with diagonal permittivity (a, b, c), a, b, c in {1, 2, 4, 8}: exact inverses, so
 # the object on top of a cell is identifiable from the stored components even with 16 objects in one scene
 DIAGS = []
@@ -61,9 +77,10 @@ def model_check(ctx):
     ctx.mc("Painter", "MC_Painter_q.cfg" if ctx.quick else "MC_Painter_t.cfg", workers=6,
            label="volume + 3 objects, covers = all non-empty subsets of 3 (thorough 4) cells, orders {0,1,2}^3; all material assignments from a 7-kind catalogue")
     ctx.mc("Painter", "MC_Painter_ties.cfg" if ctx.quick else "MC_Painter_ties_t.cfg", workers=6,
-           label="volume + 5 (thorough 6) objects with placement orders in {0,1} (all tied, or two tie groups interleaved in every way), 3 mutually overlapping covers each")
+           label="quick: volume + 6 objects, orders in {0,1} in every way (all tied / two interleaved tie groups), 3 rotating mutually overlapping covers; thorough: volume + 5 objects, every cover assignment")
     ctx.mc_negative("Painter", "MC_Painter_neg.cfg", workers=4)    # ties painted in reverse list order
     ctx.mc_negative("Painter", "MC_Painter_neg2.cfg", workers=4)   # ties resolved by an arbitrary permutation (non-stable sort)
+    ctx.mc_negative("Painter", "MC_Painter_neg3.cfg", workers=4)   # isotropy test ignores zz (uniaxial-z tensor passes as isotropic)
     ctx.assumptions += [
         "material tensors are small integers whose inverses are multiples of 1/8, so the arrays are exact in float64 (deviation is sent and bounded by tol = 1000 ppb anyway)",
         "user placement orders are > -1000 (the volume's default), as the statement's 'the volume is lowest' presupposes",
@@ -130,14 +147,18 @@ def gen_cases(ctx):
     # B. material kinds: tier selection (every catalogue material alone, in pairs, as unused dictionary entry, in a Device)
     for m in ALLM:
         yield scene("kind1", [{"kind": "box", "box": [[1, 3], [0, 4], [0, 1]], "ord": 0, "mat": m, "extra": []}])
-        if m in ("iso4", "iso8", "full2", "magdiag", "conddiag", "mcond"):
+        if m in ("iso4", "iso8", "full2", "magdiag", "conddiag", "mcond") or (m in UNIAX and (m[-1] != "z" or m[:3] in ("muV", "seU", "smZ"))):
             continue
         yield scene("kindx", [{"kind": "sphere", "at": [0, 0, 0], "r": [2.0, 2.0, 1.0], "ord": 0, "mat": "iso2", "extra": [m]},
                               {"kind": "box", "box": [[0, 2], [1, 3], [0, 2]], "ord": 0, "mat": "iso4", "extra": []}])
-    for m in ("diag", "full", "mag", "cond"):
+    # uniaxial materials mixed with each other and with isotropic ones (sphere/cylinder dictionaries, two boxes)
+    for m1, m2 in (("epsUz", "iso4"), ("epsUx", "epsUy"), ("muUz", "iso2"), ("seZz", "cond"), ("smUz", "mcond"), ("seUz", "muVy"), ("smZx", "epsUz")):
+        yield scene("uniax2", [{"kind": "box", "box": [[0, 3], [1, 4], [0, 2]], "ord": 0, "mat": m1, "extra": []},
+                               {"kind": "cyl", "axis": 2, "at": [1, 0, 0], "r": 1.5, "len": 2, "ord": 0, "mat": m2, "extra": []}])
+    for m in ("diag", "full", "mag", "cond", "epsUz", "seZz", "muUz", "smUz"):
         yield scene("kinddev", [{"kind": "box", "box": [[0, 2], [0, 4], [0, 2]], "ord": 1, "mat": "iso2", "extra": []}], device=["iso4", m])
     # C. seeded random scenes: random shapes, orders (with ties and negatives), materials of every kind
-    for _ in range(30 if ctx.quick else 400):
+    for _ in range(20 if ctx.quick else 400):
         objs = []
         for i in range(rng.choice((1, 2, 3, 3))):
             k = rng.choice(("box", "box", "sphere", "cyl"))
